@@ -53,7 +53,7 @@ type childSpec struct {
 }
 
 type childEvent struct {
-	K      string   `json:"k"` // type | alias | defer
+	K      string   `json:"k"` // type | alias | defer | new (GeneratorNewer.New was called) | ndefer (a callback registered inside New ran)
 	Pkg    string   `json:"pkg"`
 	Gen    string   `json:"gen"`
 	TPkg   string   `json:"tpkg,omitempty"`
@@ -144,7 +144,8 @@ func (r *recorder) probe(c gengo.Context, obj types.Object) {
 	probeScope(c, c.Package("").Pkg().Scope(), true)
 }
 
-func (r *recorder) onCall(kind string, gen string, c gengo.Context, obj types.Object) error {
+func (r *recorder) onCall(kind string, g *recGen, c gengo.Context, obj types.Object) error {
+	gen := g.name
 	if r.spec.Probe {
 		r.probe(c, obj)
 	}
@@ -173,6 +174,7 @@ func (r *recorder) onCall(kind string, gen string, c gengo.Context, obj types.Ob
 	}
 	if s.Action != "quiet" { // "quiet": nil without rendering; the file then exists only through what Defer callbacks render
 		c.Render(raw("// " + kind + " " + obj.Name() + "\n"))
+		g.rendered++
 	}
 	r.register(c, gen, pkg, s.Defers)
 	return nil
@@ -181,22 +183,68 @@ func (r *recorder) onCall(kind string, gen string, c gengo.Context, obj types.Ob
 type recGen struct {
 	name string
 	rec  *recorder
+	spec genSpec
+	// per instance (= per processed package): how many calls rendered something so far
+	rendered int
 }
 
-func (g *recGen) Name() string                        { return g.name }
-func (g *recGen) New(c gengo.Context) gengo.Generator { return &recGen{name: g.name, rec: g.rec} }
+func (g *recGen) Name() string { return g.name }
+
+// New (gengo.GeneratorNewer): gengo asks the registered prototype for the instance that serves one package.  A
+// collect-then-emit generator hooks its per-package summary here: with genSpec.NewDefers it registers callbacks on the
+// Context it is handed (they render a footer when the instance has rendered anything by then, and may register further
+// callbacks), with genSpec.NewRender it touches the Context's writer (an empty snippet: the output is unchanged) — after
+// reading the package the Context stands for.  Recorded as events "new" / "ndefer", which only the Go-side oracle of the
+// parent reads (c06.go, newDeferViolations); the trace handed to the model does not contain them.
+func (g *recGen) New(c gengo.Context) gengo.Generator {
+	n := &recGen{name: g.name, rec: g.rec, spec: g.spec}
+	g.rec.onNew(c, n)
+	return n
+}
+
+func (r *recorder) onNew(c gengo.Context, g *recGen) {
+	if len(g.spec.NewDefers) == 0 && !g.spec.NewRender {
+		return
+	}
+	pkg := "<no package>"
+	if p := c.Package(""); p != nil && p.Pkg() != nil {
+		pkg = p.Pkg().Path()
+	}
+	r.out.Events = append(r.out.Events, childEvent{K: "new", Pkg: pkg, Gen: g.name, Exists: r.existing()})
+	if g.spec.NewRender {
+		c.Render(raw(""))
+	}
+	r.registerNew(c, g, pkg, g.spec.NewDefers)
+}
+
+func (r *recorder) registerNew(c gengo.Context, g *recGen, pkg string, ds []deferSpec) {
+	for _, d := range ds {
+		d := d
+		c.Defer(func(c gengo.Context) error {
+			r.out.Events = append(r.out.Events, childEvent{K: "ndefer", Pkg: pkg, Gen: g.name, DID: d.ID, Exists: r.existing()})
+			if g.rendered > 0 { // the footer of a file that has content anyway: whether the file is written does not depend on it
+				c.Render(raw(fmt.Sprintf("// new-defer %d after %d rendered call(s)\n", d.ID, g.rendered)))
+			}
+			r.registerNew(c, g, pkg, d.Nested)
+			return nil
+		})
+	}
+}
+
 func (g *recGen) GenerateType(c gengo.Context, n *types.Named) error {
-	return g.rec.onCall("type", g.name, c, n.Obj())
+	return g.rec.onCall("type", g, c, n.Obj())
 }
 
 type recAliasGen struct{ recGen }
 
 func (g *recAliasGen) New(c gengo.Context) gengo.Generator {
-	return &recAliasGen{recGen{name: g.name, rec: g.rec}}
+	n := &recAliasGen{recGen{name: g.name, rec: g.rec, spec: g.spec}}
+	g.rec.onNew(c, &n.recGen)
+	return n
 }
 
 func (g *recAliasGen) GenerateAliasType(c gengo.Context, a *types.Alias) error {
-	return g.rec.onCall("alias", g.name, c, a.Obj())
+	return g.rec.onCall("alias", &g.recGen, c, a.Obj())
 }
 
 func childMain(args []string) int {
@@ -222,9 +270,9 @@ func childMain(args []string) int {
 	var names []string
 	for _, g := range spec.Gens {
 		if g.Alias {
-			gengo.Register(&recAliasGen{recGen{name: g.Name, rec: rec}})
+			gengo.Register(&recAliasGen{recGen{name: g.Name, rec: rec, spec: g}})
 		} else {
-			gengo.Register(&recGen{name: g.Name, rec: rec})
+			gengo.Register(&recGen{name: g.Name, rec: rec, spec: g})
 		}
 		names = append(names, g.Name)
 	}
